@@ -531,7 +531,9 @@ C13MethodCase(P, t) ==
 C13Shapes == {"names", "keywords", "two_services_same_method", "two_services_headers", "no_services", "cross_file",
               "nested_annotated", "oneof_members", "acronym_method", "two_service_files", "cross_package_types",
               "disc_oneof_scalars", "disc_oneof_mixed", "disc_oneof_flat", "disc_oneof_one_variant", "unwrap_container_siblings",
-              "headers_same_identifier"}
+              "headers_same_identifier",
+              \* strings the user chooses and the generators copy into emitted string literals and format strings
+              "awkward_custom_strings", "awkward_quoted_strings"}
 C13ShapeCase(P, sh) ==
   LET do(in, out) == Method("Do", in, out, TRUE, Parts(TRUE, <<Lit("do")>>, FALSE), "POST")
       one(msgs, ms) == Schema(<<File(P \o "/svc.proto", Pkg(P), GoPkg(P), TRUE, <<>>, <<Svc(P, ms)>>, <<Out(P), Child(P), Child2(P)>> \o msgs, <<EnumE, EnumPlain>>)>>)
@@ -540,6 +542,24 @@ C13ShapeCase(P, sh) ==
                                         Ann(F("userID2", "userID2", 2, "string", "opt"), "nullable", TRUE),
                                         F("x2y_z", "x2yZ", 3, "string", "one"), F("_lead", "Lead", 4, "string", "one"),
                                         F("HTTPStatus", "HTTPStatus", 5, "int32", "one")>>)>>, <<do(FN(P, "W"), FN(P, "W"))>>)
+       [] sh = "awkward_custom_strings" ->
+            Schema(<<File(P \o "/svc.proto", Pkg(P), GoPkg(P), TRUE, <<>>, <<Svc(P, <<do(FN(P, "W"), FN(P, "W"))>>)>>,
+                          <<Out(P), Child(P), Child2(P),
+                            MsgO("W", FN(P, "W"), <<FRef("q", "q", 1, "enum", "one", FN(P, "Q")), FRef("qs", "qs", 2, "enum", "rep", FN(P, "Q")),
+                                                   [F("note", "note", 3, "string", "one") EXCEPT !.ann.examples = <<"100% sure", "%d %s">>],
+                                                   InOneof(Ann(FRef("a", "a", 4, "message", "one", FN(P, "Child")), "oneofValue", "pct%d"), "o"),
+                                                   InOneof(Ann(FRef("b", "b", 5, "message", "one", FN(P, "Child2")), "oneofValue", "100%"), "o")>>,
+                                 <<Oneof("o", TRUE, "kind", FALSE)>>)>>,
+                          <<Enum("Q", <<EnumV("Q_UNSPECIFIED", 0, ""), EnumV("Q_HALF", 1, "50%"), EnumV("Q_FULL", 2, "100%s"), EnumV("Q_MORE", 3, "%v%%")>>)>>)>>)
+       [] sh = "awkward_quoted_strings" ->
+            Schema(<<File(P \o "/svc.proto", Pkg(P), GoPkg(P), TRUE, <<>>, <<Svc(P, <<do(FN(P, "W"), FN(P, "W"))>>)>>,
+                          <<Out(P), Child(P), Child2(P),
+                            MsgO("W", FN(P, "W"), <<FRef("q", "q", 1, "enum", "one", FN(P, "Q")), FRef("qs", "qs", 2, "enum", "rep", FN(P, "Q")),
+                                                   [F("note", "note", 3, "string", "one") EXCEPT !.ann.examples = <<"100% \"sure\"", "back\\slash %d">>],
+                                                   InOneof(Ann(FRef("a", "a", 4, "message", "one", FN(P, "Child")), "oneofValue", "pct%d \"q\""), "o"),
+                                                   InOneof(Ann(FRef("b", "b", 5, "message", "one", FN(P, "Child2")), "oneofValue", "back\\slash"), "o")>>,
+                                 <<Oneof("o", TRUE, "kind", FALSE)>>)>>,
+                          <<Enum("Q", <<EnumV("Q_UNSPECIFIED", 0, ""), EnumV("Q_HALF", 1, "it's"), EnumV("Q_FULL", 2, "a`b"), EnumV("Q_QUOTED", 3, "say \"hi\" \\ back")>>)>>)>>)
        [] sh = "keywords" ->
             one(<<Msg("W", FN(P, "W"), <<Ann(F("type", "type", 1, "string", "one"), "query", TRUE), Ann(F("func", "func", 2, "int32", "one"), "query", TRUE),
                                         Ann(F("range", "range", 3, "string", "rep"), "query", TRUE), F("string", "string", 4, "string", "one"),
